@@ -62,6 +62,7 @@ func checkC03(c c03Case, o *Obs) error {
 	o.LabelIf(len(c.Recs) > 1, "records>1")
 	o.LabelIf(len(c.Recs) > 50, "records>50")
 	o.LabelIf(len(c.Ref.Seq) > 4096, "width>4096")
+	o.LabelIf(len(c.Recs)*len(c.Ref.Seq) >= 1<<20, "alignment>=1MiB")
 	for _, l := range strings.Split(want, "\n") {
 		o.LabelIf(len(l) > 65536, "output-row>64KiB")
 	}
@@ -107,7 +108,51 @@ func genAlnSeq(t *rapid.T, n int, label string) string {
 	return string(b)
 }
 
+// genC03Bulk: an alignment whose total size (records x width) is beyond 1 MiB / 2 MiB - the everyday size of a real run
+// (35 SARS-CoV-2 genomes are 1 MiB) - built from a handful of drawn templates so that generation stays cheap.
+func genC03Bulk(t *rapid.T) c03Case {
+	w := rapid.SampledFrom([]int{2000, 5000, 29903}).Draw(t, "bulkWidth")
+	total := rapid.SampledFrom([]int{1100000, 1300000, 2200000}).Draw(t, "bulkTotal")
+	unit := genACGT(t, 997, "bulkUnit")
+	ref := []byte(strings.Repeat(unit, w/997+1)[:w])
+	for k := rapid.IntRange(0, 3).Draw(t, "nRefAmb"); k > 0; k-- {
+		ref[rapid.IntRange(0, w-1).Draw(t, "refAmbPos")] = rapid.SampledFrom([]byte{'N', 'R', 'Y', '-'}).Draw(t, "refAmbSym")
+	}
+	c := c03Case{HardGaps: rapid.Bool().Draw(t, "hardGaps"), Ref: FaRec{ID: "ref", Seq: string(ref)}}
+	var templates []string
+	for i := 0; i < 6; i++ {
+		b := append([]byte(nil), ref...)
+		switch rapid.IntRange(0, 5).Draw(t, "templateKind") {
+		case 0: // identical to the reference
+		case 1: // different at every column (a slow record with a long output row)
+			for j := range b {
+				if isACGT(b[j]) {
+					b[j] = transitionOf(b[j])
+				} else {
+					b[j] = 'A'
+				}
+			}
+		default:
+			for k := rapid.IntRange(1, 12).Draw(t, "nchanges"); k > 0; k-- {
+				b[rapid.IntRange(0, w-1).Draw(t, "chpos")] = alpha17[rapid.IntRange(0, 16).Draw(t, "chsym")]
+			}
+		}
+		templates = append(templates, string(b))
+	}
+	n := total/w + 2
+	for i := 0; i < n; i++ {
+		c.Recs = append(c.Recs, FaRec{ID: fmt.Sprintf("s%d", i), Seq: templates[rapid.IntRange(0, 5).Draw(t, "template")]})
+	}
+	c.RefLay = plainLayout()
+	c.AlnLay = Layout{FinalNL: true, Width: rapid.SampledFrom([]int{0, 0, 60}).Draw(t, "alnWidth")}
+	c.CLI = rapid.IntRange(0, 3).Draw(t, "cli") == 0
+	return c
+}
+
 func genC03(t *rapid.T) c03Case {
+	if oneIn(t, "bulk", 150) {
+		return genC03Bulk(t)
+	}
 	maxW := 40
 	if thorough() {
 		maxW = 300
